@@ -227,7 +227,8 @@ WATCHDOG = {"hit": False}     # once a run had to be interrupted, container flow
 
 class deadline(object):
     """A broken scheduler may loop for ever (a container flow read from its start for every block):
-    bound every run by an alarm (main thread only; elsewhere no bound)."""
+    bound every run by an alarm on the CPU time of this process (so that a loaded machine cannot
+    trigger it; main thread only, elsewhere no bound)."""
 
     def __init__(self, seconds):
         self.seconds = seconds
@@ -235,18 +236,18 @@ class deadline(object):
 
     def _fire(self, *args):
         WATCHDOG["hit"] = True
-        raise Watchdog("run did not finish within %s s" % self.seconds)
+        raise Watchdog("run did not finish within %s s of CPU time" % self.seconds)
 
     def __enter__(self):
         if self.on:
-            self.old = signal.signal(signal.SIGALRM, self._fire)
-            signal.setitimer(signal.ITIMER_REAL, self.seconds)
+            self.old = signal.signal(signal.SIGVTALRM, self._fire)
+            signal.setitimer(signal.ITIMER_VIRTUAL, self.seconds)
         return self
 
     def __exit__(self, *exc):
         if self.on:
-            signal.setitimer(signal.ITIMER_REAL, 0)
-            signal.signal(signal.SIGALRM, self.old)
+            signal.setitimer(signal.ITIMER_VIRTUAL, 0)
+            signal.signal(signal.SIGVTALRM, self.old)
         return False
 
 
